@@ -254,6 +254,7 @@ pub fn apply_fn_model(name: &str, m: &FnModel, arg: &RV) -> Result<RV, RErr> {
         },
         // the function exists and was called: its error is the outcome. (If it names itself, the Context trait cannot
         // tell the failure from "no such function in this context"; that case is not claimed.)
+        FnModel::SameNameInner => Ok(RV::Tuple(vec![RV::Str(format!("user:{}", name)), RV::Int(5)])),
         FnModel::Deep => match arg {
             RV::Int(k) if (0..=80).contains(k) => Ok(RV::Int(*k)),
             _ => Err(user("deep: not an int in 0..=80".to_string())),
